@@ -127,6 +127,18 @@ func ListFiles(dir string) (map[string]int64, error) {
 	return out, err
 }
 
+// IndependentEntryPath is the relative file name of an index entry per the v2 naming grammar, computed from the
+// entry's key, logical size, suffix and format flag only (legacy = raw ".v1" CAS file; the flag is meaningless
+// for AC/RAW entries, whose names never carry it).
+func IndependentEntryPath(e disk.VerifEntry) string {
+	i := strings.IndexByte(e.Key, '/')
+	if i < 0 || len(e.Key) < i+3 {
+		return "?" + e.Key
+	}
+	kind, hash := e.Key[:i], e.Key[i+1:]
+	return CacheFileName(kind, hash, e.Size, e.Legacy && kind == "cas", e.Random)
+}
+
 // DirDiscrepancy describes how directory and index differ.
 type DirDiscrepancy struct {
 	Extra   []string // files on disk without index entry
@@ -168,7 +180,13 @@ func CompareDir(c disk.Cache, deep bool) (DirDiscrepancy, disk.VerifSnap) {
 	}
 	want := map[string]disk.VerifEntry{}
 	for _, e := range snap.Entries {
-		want[e.Path] = e
+		// The file an entry must be stored in follows from the published naming grammar and the entry's own
+		// format flag; the path the code under test computes for it (e.Path: what it opens and unlinks) has to agree.
+		ip := IndependentEntryPath(e)
+		if ip != e.Path {
+			d.BadBlob = append(d.BadBlob, fmt.Sprintf("%s: the build resolves this entry to %q, the v2 naming grammar to %q", e.Key, e.Path, ip))
+		}
+		want[ip] = e
 	}
 	for f := range files {
 		if _, ok := want[f]; !ok {
